@@ -23,17 +23,17 @@ Proof. intros H. unfold mlrmod. destruct (Z.eqb_spec m 0); [contradiction|discri
 Lemma madd_exact a b m : in64 m = true -> 0 < m -> in64 (a + b) = true ->
   eval_tern TMadd (NInt a) (NInt b) (NInt m) = RInt ((a + b) mod m).
 Proof.
-  intros Hm Hpos Hs. cbn [eval_tern]. unfold imodadd. rewrite (wrap64_id _ Hs), (mlrmod_pos _ _ Hs Hm Hpos). reflexivity.
+  intros Hm Hpos Hs. cbn [eval_tern]. destruct (Z.eqb_spec m 0); [lia|]. unfold imodadd. rewrite (wrap64_id _ Hs), (mlrmod_pos _ _ Hs Hm Hpos). reflexivity.
 Qed.
 Lemma msub_exact a b m : in64 m = true -> 0 < m -> in64 (a - b) = true ->
   eval_tern TMsub (NInt a) (NInt b) (NInt m) = RInt ((a - b) mod m).
 Proof.
-  intros Hm Hpos Hs. cbn [eval_tern]. unfold imodsub. rewrite (wrap64_id _ Hs), (mlrmod_pos _ _ Hs Hm Hpos). reflexivity.
+  intros Hm Hpos Hs. cbn [eval_tern]. destruct (Z.eqb_spec m 0); [lia|]. unfold imodsub. rewrite (wrap64_id _ Hs), (mlrmod_pos _ _ Hs Hm Hpos). reflexivity.
 Qed.
 Lemma mmul_exact a b m : in64 m = true -> 0 < m -> in64 (a * b) = true ->
   eval_tern TMmul (NInt a) (NInt b) (NInt m) = RInt ((a * b) mod m).
 Proof.
-  intros Hm Hpos Hs. cbn [eval_tern]. unfold imodmul. rewrite (wrap64_id _ Hs), (mlrmod_pos _ _ Hs Hm Hpos). reflexivity.
+  intros Hm Hpos Hs. cbn [eval_tern]. destruct (Z.eqb_spec m 0); [lia|]. unfold imodmul. rewrite (wrap64_id _ Hs), (mlrmod_pos _ _ Hs Hm Hpos). reflexivity.
 Qed.
 
 (* in general the sum/difference/product is reduced AFTER wrapping to 64 bits *)
@@ -42,7 +42,7 @@ Lemma mop_general a b m : in64 m = true -> 0 < m ->
   eval_tern TMsub (NInt a) (NInt b) (NInt m) = RInt (wrap64 (a - b) mod m) /\
   eval_tern TMmul (NInt a) (NInt b) (NInt m) = RInt (wrap64 (a * b) mod m).
 Proof.
-  intros Hm Hpos. cbn [eval_tern]. unfold imodadd, imodsub, imodmul.
+  intros Hm Hpos. cbn [eval_tern]. destruct (Z.eqb_spec m 0); [lia|]. unfold imodadd, imodsub, imodmul.
   rewrite !(mlrmod_pos _ _ (wrap64_in64 _) Hm Hpos). repeat split.
 Qed.
 
@@ -84,21 +84,25 @@ Proof.
       rewrite Z.mul_mod_idemp_r by lia. reflexivity.
 Qed.
 
-Lemma mexp_exact a e m : in64 m = true -> 0 < m -> m <= sq_bound -> Z.abs a <= sq_bound -> 2 <= e -> in64 e = true ->
+Lemma mexp_exact a e m : in64 m = true -> 0 < m -> m <= sq_bound -> Z.abs a <= sq_bound -> 0 <= e -> in64 e = true ->
   eval_tern TMexp (NInt a) (NInt e) (NInt m) = RInt (a ^ e mod m).
 Proof.
   intros Hm Hpos Hmb Ha He Hei. cbn [eval_tern]. destruct (Z.ltb_spec e 0); [lia|].
-  unfold imodexp. destruct (Z.eqb_spec e 0); [lia|]. destruct (Z.eqb_spec e 1); [lia|].
+  destruct (Z.eqb_spec m 0); [lia|].
+  unfold imodexp. rewrite (mlrmod_pos 1 m eq_refl Hm Hpos).
+  pose proof (Z.mod_pos_bound 1 m Hpos) as Hc0.
   apply in64_iff in Hei. consts.
   assert (Hu : u64 e = e) by (unfold u64; consts; apply Z.mod_small; lia).
-  rewrite Hu, (mexp_loop_spec m Hm Hpos Hmb 64 e a 1); [|change (2 ^ Z.of_nat 64) with 18446744073709551616; lia|exact Ha|right; reflexivity].
-  rewrite Z.mul_1_l. reflexivity.
+  rewrite Hu. destruct (Z.eq_dec e 0) as [->|He0].
+  - cbn [mexp_loop Z.eqb]. rewrite Z.pow_0_r. reflexivity.
+  - rewrite (mexp_loop_spec m Hm Hpos Hmb 64 e a (1 mod m)); [|change (2 ^ Z.of_nat 64) with 18446744073709551616; lia|exact Ha|left; exact Hc0].
+    rewrite Z.mul_mod_idemp_l by lia. rewrite Z.mul_1_l. reflexivity.
 Qed.
 
-(* exponent 0 and 1 bypass the reduction: witnesses that the result is not a^e mod m there *)
-Lemma mexp_small_exponent_unreduced :
-  eval_tern TMexp (NInt 10) (NInt 1) (NInt 3) = RInt 10 /\ 10 ^ 1 mod 3 = 1 /\
-  eval_tern TMexp (NInt 5) (NInt 0) (NInt 1) = RInt 1 /\ 5 ^ 0 mod 1 = 0.
+(* exponents 0 and 1 are reduced like every other exponent *)
+Lemma mexp_small_exponent_examples :
+  eval_tern TMexp (NInt 10) (NInt 1) (NInt 3) = RInt 1 /\ 10 ^ 1 mod 3 = 1 /\
+  eval_tern TMexp (NInt 5) (NInt 0) (NInt 1) = RInt 0 /\ 5 ^ 0 mod 1 = 0.
 Proof. repeat split. Qed.
 
 Lemma mexp_negative_exponent_error a e m : e < 0 -> eval_tern TMexp (NInt a) (NInt e) (NInt m) = RError.
@@ -121,21 +125,20 @@ Proof.
   - destruct (mlrmod (wrap64 (ap * ap)) m) eqn:E2; [apply IH|exfalso; exact (mlrmod_nonzero _ _ Hm E2)].
 Qed.
 
-Lemma tern_no_panic op x y z : (forall m, z = NInt m -> m <> 0) -> eval_tern op x y z <> RPanic.
+Lemma tern_no_panic op x y z : eval_tern op x y z <> RPanic.
 Proof.
-  intros Hz. destruct op, x as [a|fa], y as [b|fb], z as [m|fm]; cbn [eval_tern]; try discriminate;
-    try (destruct (b <? 0); discriminate);
-    try (specialize (Hz m eq_refl); unfold imodadd, imodsub, imodmul;
-         match goal with |- of_modop (mlrmod ?x m) <> _ => destruct (mlrmod x m) eqn:E; [discriminate|exact (fun _ => mlrmod_nonzero _ _ Hz E)] end).
-  specialize (Hz m eq_refl). destruct (b <? 0); [discriminate|]. unfold imodexp.
-  destruct (b =? 0); [discriminate|]. destruct (b =? 1); [discriminate|].
-  destruct (mexp_loop 64 (u64 b) a 1 m) eqn:E; [discriminate|exact (fun _ => mexp_loop_no_panic m Hz _ _ _ _ E)].
+  destruct op, x as [a|fa], y as [b|fb], z as [m|fm]; cbn [eval_tern]; try (intros HH; discriminate HH);
+    try (destruct (b <? 0); intros HH; discriminate HH);
+    try (destruct (Z.eqb_spec m 0) as [|Hz]; [intros HH; discriminate HH|]; unfold imodadd, imodsub, imodmul;
+         match goal with |- of_modop (mlrmod ?x m) <> _ => destruct (mlrmod x m) eqn:E; [intros HH; discriminate HH|exact (fun _ => mlrmod_nonzero _ _ Hz E)] end).
+  destruct (b <? 0); [intros HH; discriminate HH|]. destruct (Z.eqb_spec m 0) as [|Hz]; [intros HH; discriminate HH|].
+  unfold imodexp. destruct (mlrmod 1 m) eqn:E1; [|exfalso; exact (mlrmod_nonzero _ _ Hz E1)].
+  destruct (mexp_loop 64 (u64 b) a z m) eqn:E; [intros HH; discriminate HH|exact (fun _ => mexp_loop_no_panic m Hz _ _ _ _ E)].
 Qed.
 
-Lemma tern_zero_modulus_panics :
-  eval_tern TMadd (NInt 5) (NInt 3) (NInt 0) = RPanic /\ eval_tern TMsub (NInt 5) (NInt 3) (NInt 0) = RPanic /\
-  eval_tern TMmul (NInt 5) (NInt 3) (NInt 0) = RPanic /\ eval_tern TMexp (NInt 5) (NInt 3) (NInt 0) = RPanic.
-Proof. repeat split. Qed.
+(* a zero modulus is an error value *)
+Lemma tern_zero_modulus_error op a b : eval_tern op (NInt a) (NInt b) (NInt 0) = RError.
+Proof. destruct op; cbn [eval_tern]; try reflexivity. destruct (b <? 0); reflexivity. Qed.
 
 Lemma un_no_panic op x : eval_un op x <> RPanic.
 Proof. destruct op, x; discriminate. Qed.
@@ -148,9 +151,9 @@ Ltac top_cases :=
           end; cbv zeta);
   try (intros HH; discriminate HH).
 
-Lemma bin_no_panic op x y : op <> ODotDivide -> eval_bin op x y <> RPanic.
+Lemma bin_no_panic op x y : eval_bin op x y <> RPanic.
 Proof.
-  intros Hop. destruct op; try contradiction; destruct x as [a|fa], y as [b|fb];
+  destruct op; destruct x as [a|fa], y as [b|fb];
     cbn [eval_bin min_variadic2 max_variadic2 min_bin max_bin num_of_res to_f];
     try (intros H; discriminate H).
   - unfold plus_ii. top_cases.
@@ -163,15 +166,9 @@ Proof.
   - unfold pow_ff. top_cases.
   - unfold pow_ff. top_cases.
   - unfold pow_ff. top_cases.
+  - unfold dotdivide_ii. top_cases.
   - unfold lsh_ii. top_cases.
   - unfold srsh_ii. top_cases.
   - unfold ursh_ii. top_cases.
 Qed.
 
-Lemma dotdivide_only_zero_panics x y : eval_bin ODotDivide x y = RPanic <-> exists a, x = NInt a /\ y = NInt 0.
-Proof.
-  split.
-  - destruct x as [a|fa], y as [b|fb]; cbn [eval_bin]; try discriminate. unfold dotdivide_ii.
-    destruct (Z.eqb_spec b 0) as [->|]; [intros _; exists a; split; reflexivity|discriminate].
-  - intros (a & -> & ->). reflexivity.
-Qed.
